@@ -315,7 +315,9 @@ class ReqClass:
                         st = ("idle",)
                     elif nm in ("clear", "resize", "free", "cancel") and st[0] == "posted":
                         problems.append((n.get("l"), "%s.%s() while requests posted at line %s may still be pending" % (H, nm, st[2])))
-                    elif nm not in ("wait_any", "push_back", "reserve", "get_request", "operator[]", "size", "get_status", "operator=") and st[0] == "posted":
+                    elif nm not in ("wait_any", "push_back", "reserve", "get_request", "operator[]", "size", "get_status", "operator=",
+                                    "test_for", "test_any", "test_all", "test", "is_null", "empty") and st[0] == "posted":
+                        # (test_* are non-blocking probes: they may complete single requests but never guarantee completion -> state stays 'posted')
                         doubts.append((n.get("l"), "%s.%s(...) is not modelled and may complete the requests" % (H, nm)))
                     continue
                 for a, pn_, pt_ in dfl.call_args_with_params(n, fn):
@@ -711,6 +713,24 @@ def check_coherence(ck, facts):
                             ga = dfl.arg_by_param(g, "buffer") or (g["a"][0] if g.get("a") else None)
                             if ga is not None and rs.path(ga) == bobj and cfg.stmt_dominates(g["i"], c["i"]):
                                 ok = True
+                    if not ok:
+                        # the gather may sit in an earlier loop over the same neighbours (loop split): same buffer array, same extent, loop header dominates
+                        cont = bobj.steps[:-1] if bobj.steps and bobj.steps[-1][0] in ("call", "index") else None
+                        for g in calls_of(fn):
+                            if g.get("k") == "MCall" and callee_name(g) == "gather" and "Mirror" in (g.get("ccls") or "") and cont is not None:
+                                ga = dfl.arg_by_param(g, "buffer") or (g["a"][0] if g.get("a") else None)
+                                gp = rs.path(ga).steps if ga is not None else ()
+                                gl = dfl.enclosing_loops(fn, par, g)
+                                if gp[:-1] == cont and gl and L is not None and gl[-1] is not L:
+                                    hdr = [b_["id"] for b_ in cfg.blocks.values() if b_.get("term_id") == gl[-1].get("i")]
+                                    wc = cfg.block_of(c["i"])
+                                    same_extent = gl[-1].get("c") is not None and L.get("c") is not None and render(strip_casts(rs, gl[-1]["c"].get("rhs") or {})) == render(strip_casts(rs, L["c"].get("rhs") or {}))
+                                    if hdr and wc is not None and hdr[0] in cfg.dom.get(wc[0], ()):
+                                        if same_extent:
+                                            ok = True
+                                        else:
+                                            doubts.append((c.get("l"), "send buffers are gathered in another loop with a different extent expression"))
+                                            ok = True
                     if not ok:
                         # the buffer may be filled by a construct that is not a direct mirror gather in this scope
                         filled = [x for x in nodes if is_call(x) and x is not c and x.get("callee") not in dfl.MOVE_FNS and callee_name(x) != "gather" and any(
@@ -1792,6 +1812,129 @@ def check_muxer(ck, facts):
 
 
 # =====================================================================================================
+# what is sent is the state before the exchange; outputs of additive scatters are defined first
+# =====================================================================================================
+
+def mirror_ops(fn, rs):
+    """[(call, 'gather'|'scatter', path of the vector/matrix operand)] of the mirror operations of a function"""
+    out = []
+    for c in calls_of(fn):
+        if c.get("k") != "MCall" or not strip_targs(c.get("ccls", "")).startswith("FEAT::LAFEM::") or "Mirror" not in c.get("ccls", ""):
+            continue
+        nm = callee_name(c)
+        if nm == "gather":
+            v = dfl.arg_by_param(c, "vector") or dfl.arg_by_param(c, "matrix") or (c["a"][1] if len(c.get("a", [])) > 1 else None)
+            if v is not None:
+                out.append((c, "gather", rs.path(v)))
+        elif nm == "scatter_axpy":
+            v = dfl.arg_by_param(c, "vector") or dfl.arg_by_param(c, "matrix") or (c["a"][0] if c.get("a") else None)
+            if v is not None:
+                out.append((c, "scatter", rs.path(v)))
+    return out
+
+
+def check_exchange_order(ck, facts):
+    """(a) E5.gather-before-scatter: in the synchronisation classes no mirror gather reads a target after a received contribution was scattered into it
+           (member helpers are inlined one level);
+       (b) E7.scatter-output-defined: a vector parameter of Muxer / Splitter that is only written by additive scatters (never read) is formatted / copied before"""
+    by_cls = {}
+    for fn in facts.functions:
+        if fn.tk != "pattern" and fn.file.startswith(R("kernel/global/")) and fn.cfg is not None:
+            by_cls.setdefault(fn.cls, []).append(fn)
+    for cls, fns in sorted(by_cls.items()):
+        base = strip_targs(cls)
+        rc = ReqClass(fns)
+        for fn in rc.fns:
+            rs = rc.rs[id(fn)]
+            cfg = fn.cfg
+            ops = mirror_ops(fn, rs)
+            # summaries of member helpers: which kinds of operations on which member/param-forwarded targets they perform
+            helper_ops = {}
+            for c in calls_of(fn):
+                g = rc.helper(c)
+                if g is not None:
+                    hops = mirror_ops(g, rc.rs[id(g)])
+                    helper_ops[c["i"]] = [(kind, p_) for _, kind, p_ in hops if p_.steps and p_.steps[0] == ("this",)]
+            if base in ("FEAT::Global::SynchVectorTicket", "FEAT::Global::SynchMatrix"):
+                targets = sorted({p_ for _, kind, p_ in ops if kind == "gather"} | {p_ for lst in helper_ops.values() for kind, p_ in lst if kind == "gather"}, key=repr)
+                for T in targets:
+                    problems = []
+                    op_at = {c["i"]: kind for c, kind, p_ in ops if p_ == T}
+
+                    def step(bid, st, T=T, op_at=op_at):
+                        for e in cfg.blocks[bid]["el"]:
+                            n = fn.by_id(e)
+                            if n is None or not is_call(n):
+                                continue
+                            kinds = []
+                            if n["i"] in op_at:
+                                kinds = [op_at[n["i"]]]
+                            elif n["i"] in helper_ops:
+                                kinds = [k_ for k_, p_ in helper_ops[n["i"]] if p_ == T]
+                                kinds.sort(key=lambda k_: 0 if k_ == "gather" else 1)
+                            for kind in kinds:
+                                if kind == "scatter":
+                                    st = ("scattered", n.get("l"))
+                                elif kind == "gather" and st[0] == "scattered":
+                                    problems.append((n.get("l"), "%s gathers from %s after a received contribution was scatter_axpy'ed into it at line %s: the send buffer of this neighbour "
+                                                     "contains another neighbour's contribution, which then arrives twice at dofs shared by three or more processes (arrival-order dependent)" % (
+                                                         render(n)[:50], T, st[1])))
+                        return st
+                    dfl.propagate(fn, ("clean",), step)
+                    uniq = []
+                    for pr in problems:
+                        if pr[1] not in [u[1] for u in uniq]:
+                            uniq.append(pr)
+                    ck.ob("E5.gather-before-scatter", "%s/%s" % (fkey(fn), T), not uniq, "; ".join("line %s: %s" % u for u in uniq) or
+                          "every mirror gather reads %s before any received contribution is scattered into it (all paths, loops included)" % T, fn.file, uniq[0][0] if uniq else fn.line)
+            if base in ("FEAT::Global::Muxer", "FEAT::Global::Splitter"):
+                for p in fn.params:
+                    t = fn.type(p["t"]).strip()
+                    if not is_nonconst_ref(t) or not re.search(r"Vector", t):
+                        continue
+                    T = dfl.Path((("param", p["d"]),), text=p["n"])
+                    scat = [c for c, kind, p_ in ops if kind == "scatter" and p_ == T]
+                    if not scat:
+                        continue
+                    reads = [c for c, kind, p_ in ops if kind == "gather" and p_.related(T)]
+                    for c in calls_of(fn):
+                        for a, pn_, pt_ in dfl.call_args_with_params(c, fn):
+                            if a is not dfl.receiver(c) and pt_ is not None and not is_nonconst_ref(pt_) and rs.path(a).related(T) and c not in scat:
+                                reads.append(c)
+                    if reads:
+                        continue          # an in/out operand: its previous contents are part of the result by design
+                    key = "%s/%s" % (fkey(fn), p["n"])
+                    definers = ("format", "copy", "clone", "convert", "operator=")
+                    doubts = []
+
+                    def is_def(n, T=T):
+                        if n.get("k") == "MCall" and callee_name(n) in definers and rs.path(n.get("obj") or {"k": "This"}) == T:
+                            return True
+                        if n.get("k") in ("Assign", "OpCall") and n.get("op") == "=":
+                            lhs = n.get("lhs") if n.get("k") == "Assign" else n["a"][0]
+                            return rs.path(lhs) == T
+                        return False
+                    bad = []
+                    for sc in scat:
+                        defs = [n for n in fn.nodes() if is_def(n) and "i" in n and cfg.stmt_dominates(n["i"], sc["i"])]
+                        if defs:
+                            continue
+                        other = [u for u in dfl.unmodelled_mutable_uses(fn, rs, T, modelled=("scatter_axpy",) + definers) if "i" in u and not cfg.stmt_dominates(sc["i"], u["i"])]
+                        if other:
+                            doubts.append("%s may be defined by %s, which is not modelled" % (p["n"], render(other[0])[:50]))
+                        elif any(is_def(n) for n in fn.nodes()):
+                            bad.append((sc.get("l"), "a path reaches %s without %s being formatted / assigned before" % (render(sc)[:50], p["n"])))
+                        else:
+                            bad.append((sc.get("l"), "%s is only added to (%s) and never formatted / assigned in this function: for a re-used vector the previous contents survive "
+                                        "in the result (every second and later use of the same target)" % (p["n"], render(sc)[:50])))
+                    if doubts and not bad:
+                        ck.incomplete("E7.scatter-output-defined", "%s: %s" % (key, "; ".join(doubts)))
+                    else:
+                        ck.ob("E7.scatter-output-defined", key, not bad, "; ".join("line %s: %s" % b_ for b_ in bad) or
+                              "%s is formatted / assigned on every path before the %d additive scatter(s) that define it" % (p["n"], len(scat)), fn.file, bad[0][0] if bad else scat[0].get("l"))
+
+
+# =====================================================================================================
 # const inputs are not modified through shallow clones
 # =====================================================================================================
 
@@ -1906,6 +2049,12 @@ def declare_rules(ck):
             "(own local vector[, x.local()]); norm2sqr = dot(*this), norm2 = sqrt(norm2sqr)", 20)
 
 
+    ck.rule("E5.gather-before-scatter", "SynchVectorTicket / SynchMatrix: on every path (loops and member helpers included) every mirror gather that packs a send buffer reads the "
+            "target before any received neighbour contribution is scatter_axpy'ed into the same target. Broken => a neighbour's contribution is forwarded to a third process and "
+            "counted twice at dofs shared by >= 3 processes, depending on the arrival order", 4)
+    ck.rule("E7.scatter-output-defined", "Muxer / Splitter: a vector parameter that the function only writes through additive mirror scatters (scatter_axpy) and never reads is an "
+            "output: it is formatted / assigned on every path before the first scatter. Broken => on the second and later use of a re-used target (Global::Transfer::_vec_tmp) the "
+            "old contents are added to the result", 6)
     ck.rule("E2.const-input-not-aliased", "a local obtained as in.clone(mode) from an object reachable through a const parameter / const this and modified afterwards "
             "(from_1_to_0, sync, scale, passed as output ...) owns its value array: mode is Deep / Weak / Layout / Allocate, never Shallow (which shares the values with the const "
             "input). Broken => the caller's input vector / matrix is changed in place on every multi-process call", 6)
@@ -1927,6 +2076,7 @@ def analyse(ck, facts, label):
     check_reductions(ck, facts)
     check_muxer(ck, facts)
     check_const_alias(ck, facts)
+    check_exchange_order(ck, facts)
     from checks import c18 as _c18
     _c18.check_global_transfer(ck, facts)
 
